@@ -116,14 +116,16 @@ theorem contentOf_eq (p : Spec.Part) :
     simp only [ctLine_eq, this, utf8Enc_append, utf8Enc_crlf, crlf]
     simp [List.append_assoc]
 
-structure PartOK (p : Spec.Part) : Prop where
+structure PartOK0 (p : Spec.Part) : Prop where
   name_ne : p.name ≠ []
   name_good : AllGood p.name
   fn_ok : ∀ fn, p.filename = some fn → fn ≠ [] ∧ AllGood fn
   ct_ok : ∀ ct, p.ctype = some ct → AllGood ct ∧ C06.stripWs ct = ct
+
+structure PartOK (p : Spec.Part) : Prop extends PartOK0 p where
   bs : p.filename.isSome → p.name.getLast? ≠ some 92
 
-theorem allGood_line1 (p : Spec.Part) (hp : PartOK p) : AllGood (line1 p) := by
+theorem allGood_line1 (p : Spec.Part) (hp : PartOK0 p) : AllGood (line1 p) := by
   have h1 : AllGood (sCD ++ [58, 32]) := by decide
   have := h1.append (allGood_dispValue p.name p.filename hp.name_good (fun fn h => (hp.fn_ok fn h).2))
   simpa [line1] using this
@@ -133,7 +135,7 @@ theorem allGood_line2 (ct : Str) (h : AllGood ct) : AllGood (line2 ct) := by
   have := h1.append h
   simpa [line2] using this
 
-theorem allGood_headerText_scalar (p : Spec.Part) (hp : PartOK p) :
+theorem allGood_headerText_scalar (p : Spec.Part) (hp : PartOK0 p) :
     (headerText p).all Wire.isScalar = true := by
   unfold headerText
   rw [List.all_append, (allGood_line1 p hp).scalar]
@@ -148,7 +150,7 @@ theorem not_mem_utf8Enc (s : Str) (b : Nat) (hb : b < 128) (h : b ∉ s) : b ∉
   fun hm => h (utf8Enc_ascii_mem s b hm hb)
 
 /-- the blank line is found right after the header block -/
-theorem findSub_content (p : Spec.Part) (hp : PartOK p) (rest : Bytes) :
+theorem findSub_content (p : Spec.Part) (hp : PartOK0 p) (rest : Bytes) :
     findSub [13, 10, 13, 10] (utf8Enc (headerText p) ++ ([13, 10, 13, 10] ++ rest)) = some (utf8Enc (headerText p)).length := by
   have hA : 13 ∉ utf8Enc (line1 p) := not_mem_utf8Enc _ 13 (by decide) (allGood_line1 p hp).noCr
   unfold headerText
@@ -273,7 +275,7 @@ theorem stripWs_dispValue (name : Str) (filename : Option Str) :
     subst this; decide
 
 /-- the header block parses to a header map from which `Content-Disposition` and `Content-Type` read back -/
-theorem parse_headerText (p : Spec.Part) (hp : PartOK p) :
+theorem parse_headerText (p : Spec.Part) (hp : PartOK0 p) :
     ∃ hs, C06.parse (headerText p) false = .ok hs ∧
       hget hs "Content-Disposition" = some (dispValue p.name p.filename) ∧
       hget hs "Content-Type" = p.ctype := by
@@ -348,9 +350,32 @@ theorem value_extract (H v : Bytes) :
 theorem endsWith_crlf (x : Bytes) : endsWith (x ++ [13, 10]) crlf = true := by
   simp [endsWith, crlf, isPrefix]
 
-theorem parsePart_content (cfg : Config) (p : Spec.Part) (f : Form) (hp : PartOK p) :
+/-- what `parsePart` does with the result of `_parse_header` (the part of the code after the header block) -/
+def finishPart (f : Form) (p : Spec.Part) (r : Except C43.Err (Str × List (Str × Str))) : Except Err Form :=
+  match r with
+  | .error (.uncaught k) => .error (.uncaught k)
+  | .error .unmodelled => .error .unmodelled
+  | .error .httpInput => .error .httpInput
+  | .ok (disposition, params) =>
+    if disposition ≠ ofAscii "form-data" then .error .httpInput
+    else
+      match C43.dget (ofAscii "name") params with
+      | none => .error .httpInput
+      | some name =>
+        if name.isEmpty then .error .httpInput
+        else
+          match C43.dget (ofAscii "filename") params with
+          | some fn =>
+            if fn.isEmpty then .ok { f with arguments := dappend name p.value f.arguments }
+            else .ok { f with files := dappend name { filename := fn, body := p.value,
+                                                      contentType := p.ctype.getD (ofAscii "application/unknown") } f.files }
+          | none => .ok { f with arguments := dappend name p.value f.arguments }
+
+/-- one encoded part, up to `_parse_header` (no hypothesis on trailing backslashes) -/
+theorem parsePart_content_gen (cfg : Config) (p : Spec.Part) (f : Form) (hp : PartOK0 p) :
     parsePart cfg (Spec.contentOf Spec.dispositionQ p) f =
-      if (utf8Enc (headerText p)).length > cfg.maxPartHeaderSize then .error .httpInput else .ok (stepOf f p) := by
+      if (utf8Enc (headerText p)).length > cfg.maxPartHeaderSize then .error .httpInput
+      else finishPart f p (parseHeader (dispValue p.name p.filename)) := by
   obtain ⟨hs, hparse, hcd, hctype⟩ := parse_headerText p hp
   have hfind := findSub_content p hp (p.value ++ [13, 10])
   rw [contentOf_eq]
@@ -360,28 +385,38 @@ theorem parsePart_content (cfg : Config) (p : Spec.Part) (f : Form) (hp : PartOK
   · have htake : (utf8Enc (headerText p) ++ ([13, 10, 13, 10] ++ (p.value ++ [13, 10]))).take (utf8Enc (headerText p)).length =
         utf8Enc (headerText p) := List.take_left' rfl
     have hstrict := utf8Strict_enc (headerText p) (allGood_headerText_scalar p hp)
-    have hph := parseHeader_dispValue p.name p.filename hp.bs
     have hends : endsWith (utf8Enc (headerText p) ++ ([13, 10, 13, 10] ++ (p.value ++ [13, 10]))) crlf = true := by
       have e : utf8Enc (headerText p) ++ ([13, 10, 13, 10] ++ (p.value ++ [13, 10])) =
           (utf8Enc (headerText p) ++ [13, 10, 13, 10] ++ p.value) ++ [13, 10] := by simp
       rw [e]; exact endsWith_crlf _
     have hval := value_extract (utf8Enc (headerText p)) p.value
-    have hne : (ofAscii "name" = ofAscii "filename") = False := by simp; decide
-    have hnm : p.name.isEmpty = false := by
-      cases hnn : p.name with
-      | nil => exact absurd hnn hp.name_ne
+    simp only [hfind, hsize, if_false, htake, hstrict, hparse, hcd, Option.getD_some, hends, Bool.not_true,
+      Bool.false_eq_true, or_false, hval, hctype]
+    unfold finishPart
+    cases parseHeader (dispValue p.name p.filename) with
+    | error e => cases e <;> rfl
+    | ok v => rfl
+
+theorem parsePart_content (cfg : Config) (p : Spec.Part) (f : Form) (hp : PartOK p) :
+    parsePart cfg (Spec.contentOf Spec.dispositionQ p) f =
+      if (utf8Enc (headerText p)).length > cfg.maxPartHeaderSize then .error .httpInput else .ok (stepOf f p) := by
+  rw [parsePart_content_gen cfg p f hp.toPartOK0, parseHeader_dispValue p.name p.filename hp.bs]
+  have hne : (ofAscii "name" = ofAscii "filename") = False := by simp; decide
+  have hnm : p.name.isEmpty = false := by
+    cases hnn : p.name with
+    | nil => exact absurd hnn hp.name_ne
+    | cons a r => rfl
+  congr 1
+  unfold finishPart stepOf
+  simp only [ne_eq, not_true_eq_false, if_false, C43.dget, if_true, hnm, Bool.false_eq_true]
+  cases hfn : p.filename with
+  | none => simp [fnParams, C43.dget, hne]
+  | some fn =>
+    have hfne : fn.isEmpty = false := by
+      cases hff : fn with
+      | nil => exact absurd hff (hp.fn_ok fn hfn).1
       | cons a r => rfl
-    simp only [hfind, hsize, if_false, htake, hstrict, hparse, hcd, Option.getD_some, hph, hends, ne_eq, not_true_eq_false,
-      Bool.not_true, Bool.false_eq_true, or_self, hval, C43.dget, if_true, hnm]
-    unfold stepOf
-    cases hfn : p.filename with
-    | none => simp [fnParams, C43.dget, hne]
-    | some fn =>
-      have hfne : fn.isEmpty = false := by
-        cases hff : fn with
-        | nil => exact absurd hff (hp.fn_ok fn hfn).1
-        | cons a r => rfl
-      simp [fnParams, C43.dget, hne, hfne, hctype]
+    simp [fnParams, C43.dget, hne, hfne]
 
 /-! ### the whole body -/
 
@@ -559,20 +594,46 @@ structure Sendable (b : Bytes) (parts : List Spec.Part) : Prop where
   ctypes : ∀ p ∈ parts, ∀ ct, p.ctype = some ct → C06.hasForbidden ct = false ∧ C06.stripWs ct = ct ∧ ct.all Wire.isScalar = true
   backslash : ∀ p ∈ parts, p.filename.isSome → p.name.getLast? ≠ some 92
 
+theorem partOK0_of (p : Spec.Part)
+    (hn : p.name ≠ [] ∧ C06.hasForbidden p.name = false ∧ p.name.all Wire.isScalar = true)
+    (hf : ∀ fn, p.filename = some fn → fn ≠ [] ∧ C06.hasForbidden fn = false ∧ fn.all Wire.isScalar = true)
+    (hc : ∀ ct, p.ctype = some ct → C06.hasForbidden ct = false ∧ C06.stripWs ct = ct ∧ ct.all Wire.isScalar = true) :
+    PartOK0 p :=
+  { name_ne := hn.1
+    name_good := allGood_of _ hn.2.1 hn.2.2
+    fn_ok := fun fn hfn => ⟨(hf fn hfn).1, allGood_of _ (hf fn hfn).2.1 (hf fn hfn).2.2⟩
+    ct_ok := fun ct hct => ⟨allGood_of _ (hc ct hct).1 (hc ct hct).2.2, (hc ct hct).2.1⟩ }
+
+theorem WellFormed.partOK0 {cfg : Config} {b : Bytes} {parts : List Spec.Part} (h : WellFormed cfg b parts)
+    (p : Spec.Part) (hp : p ∈ parts) : PartOK0 p :=
+  partOK0_of p (h.names p hp) (h.filenames p hp) (h.ctypes p hp)
+
 theorem Sendable.partsOK {b : Bytes} {parts : List Spec.Part} (h : Sendable b parts) : PartsOK parts := by
   intro p hp
-  obtain ⟨hn1, hn2, hn3⟩ := h.names p hp
-  exact {
-    name_ne := hn1
-    name_good := allGood_of _ hn2 hn3
-    fn_ok := fun fn hfn => ⟨(h.filenames p hp fn hfn).1, allGood_of _ (h.filenames p hp fn hfn).2.1 (h.filenames p hp fn hfn).2.2⟩
-    ct_ok := fun ct hct => ⟨allGood_of _ (h.ctypes p hp ct hct).1 (h.ctypes p hp ct hct).2.2, (h.ctypes p hp ct hct).2.1⟩
-    bs := h.backslash p hp }
+  exact { toPartOK0 := partOK0_of p (h.names p hp) (h.filenames p hp) (h.ctypes p hp), bs := h.backslash p hp }
 
 theorem WellFormed.sendable {cfg : Config} {b : Bytes} {parts : List Spec.Part} (h : WellFormed cfg b parts)
     (hbs : ∀ p ∈ parts, p.filename.isSome → p.name.getLast? ≠ some 92) (hlf : 10 ∉ b) : Sendable b parts :=
   { boundary_plain := h.boundary_plain, boundary_lf := hlf, fresh := h.fresh, names := h.names, filenames := h.filenames,
     ctypes := h.ctypes, backslash := hbs }
+
+/-- a body with a single part, whatever its name: the result is decided by `_parse_header` on the Content-Disposition
+    value (used to exhibit the known finding at the `parse_multipart_form_data` level) -/
+theorem parseMultipart_single (cfg : Config) (b : Bytes) (p : Spec.Part) (hwf : WellFormed cfg b [p]) (h10 : 10 ∉ b) :
+    parseMultipart cfg b (Spec.encodeMultipart b [p]) {} =
+      finishPart {} p (parseHeader (dispValue p.name p.filename)) := by
+  have hcount : ¬ ([p].length > cfg.maxParts) := Nat.not_lt.mpr hwf.count
+  have hsz : ¬ ((utf8Enc (headerText p)).length > cfg.maxPartHeaderSize) := by
+    rw [← headerSize_eq]
+    exact Nat.not_lt.mpr (hwf.header_size p List.mem_cons_self)
+  have hemp : (Spec.contentOf Spec.dispositionQ p).isEmpty = false := by
+    cases hc : Spec.contentOf Spec.dispositionQ p with
+    | nil => exact absurd hc (content_ne_nil p)
+    | cons a r => rfl
+  rw [parseMultipart_encoded_eq cfg b [p] hwf.enabled hwf.boundary_plain h10 hwf.fresh, if_neg hcount]
+  simp only [List.map_cons, List.map_nil, List.foldlM_cons, List.foldlM_nil, hemp, Bool.false_eq_true, if_false,
+    parsePart_content_gen cfg p {} (hwf.partOK0 p List.mem_cons_self), hsz]
+  cases finishPart {} p (parseHeader (dispValue p.name p.filename)) <;> rfl
 
 /-- accepted: count and every header size within the limits (equality included) -/
 theorem parseMultipart_sendable_accept (cfg : Config) (b : Bytes) (parts : List Spec.Part) (hen : cfg.enabled = true)
